@@ -337,6 +337,9 @@ func main() {
 			}
 			if !found {
 				out.w.Flush()
+				if out.armed {
+					out.trigger()
+				}
 				os.Exit(1)
 			}
 			for _, a := range args {
